@@ -399,6 +399,31 @@ impl C12 {
                 }
             }
         }
+        // near misses: pseudo-legal but illegal moves (pinned men, moves that ignore a check, king into attack)
+        // spelled as if they were legal; the reader decides what the text denotes among the *legal* moves
+        {
+            let ps: Vec<RMove> = p.pseudo().into_iter().filter(|x| !legal.contains(x) && !p.is_castle(*x)).collect();
+            let take = if miri { 3 } else { 24 };
+            for x in ps.iter().take(take) {
+                let piece = kind(p.sq[x.from as usize]);
+                let takes = p.is_capture(*x);
+                let shapes: Vec<(Option<u8>, Option<u8>)> = if piece == P {
+                    if takes {
+                        vec![(Some(x.from & 7), None)]
+                    } else {
+                        vec![(None, None), (Some(x.from & 7), Some(x.from >> 3))]
+                    }
+                } else {
+                    vec![(None, None), (Some(x.from & 7), None), (Some(x.from & 7), Some(x.from >> 3))]
+                };
+                for (sf, sr) in shapes {
+                    for suf in [None, Some('+')].iter() {
+                        let q = Parts { piece, src_file: sf, src_rank: sr, takes, dest: x.to, promo: x.promo, suffix: *suf, ep_suffix: false };
+                        check(b, p, legal, &San::Normal(q), "pseudo-legal-but-illegal-move", rep);
+                    }
+                }
+            }
+        }
         // castling spellings are always probed (legal or not)
         for long in [false, true].iter() {
             check(b, p, legal, &San::Castle { long: *long, suffix: None }, "castle-probe", rep);
